@@ -48,6 +48,7 @@ type Ctx struct {
 	// RegistrationIsEvent: Precedes treats a `defer`/`go` statement matched by `first` as the event itself (its
 	// registration), instead of ignoring it because the deferred call has not run yet.
 	RegistrationIsEvent bool
+	flips               []flipSite // comparisons relied on by discharged guard obligations (see sweep.go)
 }
 
 func newCtx(p *Program, prop, tier string) *Ctx {
